@@ -59,6 +59,7 @@ var H1 = []string{
 	// 'z' (upper boundary of the letter ranges; case flips give 'Z') and multi-byte runes whose low
 	// byte aliases '=' (U+043D) and '<' (U+013C): a rune-to-byte truncation turns them into markup
 	"z", "\u043d", "\u013c",
+	"\\", // not special in HTML: a change that starts treating it as an escape must be visible
 }
 
 // H1core — 20 bytes for one level deeper.
@@ -73,6 +74,7 @@ var H2 = []string{
 	"<a", "<xss", "<script", "onerror", "href", "style", "xmlns", "attributename", "javascript:", "&#106", "&#x6a;",
 	"[if", "xml", "import", "entity",
 	"\u043d", "\u013c", // runes whose low byte aliases '=' / '<'
+	"<![cdata[", "&#x6a", "\\", // lower-case CDATA is NOT a CDATA section; unterminated hex reference; backslash
 }
 
 // Fixtures returns every --INPUT-- of repo/tests/*.txt plus literal payloads of the Go tests.
